@@ -48,11 +48,12 @@ def build_case(rng, syntax, opts, single=False):
     cfg = {'syntax': syntax, 'options': opts} if syntax != 'html' or rng.random() < 0.5 else {'options': opts}
     if not opts and rng.random() < 0.5:
         cfg = {k: v for k, v in cfg.items() if k != 'options'}
-    shape = 0 if single else rng.choice([0, 0, 0, 1, 2, 3, 4, 5])
+    shape = 0 if single else rng.choice([0, 0, 0, 1, 2, 3, 4, 5, 6])
     names = rng.sample(ELEMS, 3)
     parts = []
-    for nm in names:
-        text, ms = au.rand_mentions(rng, jsx)
+    for k, nm in enumerate(names):
+        # a snippet definition is parsed without the jsx extensions
+        text, ms = au.rand_mentions(rng, jsx and not (shape == 6 and k > 0))
         parts.append((nm, text, ms))
     (n1, t1, m1), (n2, t2, m2), (n3, t3, m3) = parts
     if shape == 0:
@@ -65,6 +66,13 @@ def build_case(rng, syntax, opts, single=False):
         return '%s%s*2' % (n1, t1), cfg, [(n1, m1), (n1, m1)]
     if shape == 4:
         return '%s%s/' % (n1, t1), cfg, [(n1, m1)]
+    if shape == 6:
+        # the element is a user snippet with two top-level elements: both receive the mentions written
+        # on the alias after their own (before them under reverseAttributes)
+        cfg = dict(cfg, snippets={'foo': '%s%s+%s%s' % (n2, t2, n3, t3)})
+        if opts.get('output.reverseAttributes'):
+            return 'foo' + t1, cfg, [(n2, m1 + m2), (n3, m1 + m3)]
+        return 'foo' + t1, cfg, [(n2, m2 + m1), (n3, m3 + m1)]
     return '%s%s>%s%s+%s%s' % (n1, t1, n2, t2, n3, t3), cfg, [(n1, m1), (n2, m2), (n3, m3)]
 
 
